@@ -365,6 +365,7 @@ fn clean_item(it: &mut syn::Item, derive_keep: &[String], subst: &BTreeMap<Strin
 
 struct Rules {
     split_find: bool,
+    for_ref_skip: bool,
     filter_map_collect: Option<String>,
     fmt_concat: bool,
     split_map_collect: Option<String>,
@@ -703,6 +704,36 @@ impl<'a> VisitMut for RuleVisitor<'a> {
             if let Some(e) = repl {
                 *l.expr = e;
                 self.applied.bump("E14-split-loop-over-collected-parts");
+            }
+        }
+        if self.rules.for_ref_skip {
+            // E22: `for &P in E { B }` ==> `for __vx_r in E { let P = *__vx_r; B }` (Verus has no reference patterns; the pattern only copies
+            // the item out of the reference), and `X.iter().skip(N)` as the iterated expression ==> `vx_skip_slice(&X, N).iter()` (the items of
+            // a slice after the first N are the items of the sub-slice; vx_skip_slice is a trusted prelude function `&s[n.min(s.len())..]`)
+            if let syn::Pat::Reference(pr) = &*l.pat {
+                if pr.mutability.is_none() {
+                    let inner = (*pr.pat).clone();
+                    let first: syn::Stmt = parse_quote!(let #inner = *__vx_r;);
+                    l.body.stmts.insert(0, first);
+                    *l.pat = parse_quote!(__vx_r);
+                    self.applied.bump("E22-reference-pattern-as-deref");
+                }
+            }
+            let mut repl: Option<Expr> = None;
+            if let Expr::MethodCall(outer) = &*l.expr {
+                if outer.method == "skip" && outer.args.len() == 1 {
+                    if let Expr::MethodCall(inner) = &*outer.receiver {
+                        if inner.method == "iter" && inner.args.is_empty() {
+                            let recv = &inner.receiver;
+                            let n = &outer.args[0];
+                            repl = Some(parse_quote!(vx_skip_slice(&#recv, #n).iter()));
+                        }
+                    }
+                }
+            }
+            if let Some(e) = repl {
+                *l.expr = e;
+                self.applied.bump("E22-iter-skip-as-subslice");
             }
         }
         if let Some(fname) = &self.rules.enumerate_fn {
@@ -1144,6 +1175,7 @@ fn transform_fn(
         .unwrap_or_default();
     let rules = Rules {
         split_find: rule_list.iter().any(|r| r == "E19"),
+        for_ref_skip: rule_list.iter().any(|r| r == "E22"),
         filter_map_collect: rule_list.iter().find_map(|r| if r == "E21" { Some(String::new()) } else { r.strip_prefix("E21=").map(String::from) }),
         fmt_concat: rule_list.iter().any(|r| r == "E20"),
         split_map_collect: rule_list.iter().find_map(|r| if r == "E18" { Some(String::new()) } else { r.strip_prefix("E18=").map(String::from) }),
